@@ -484,3 +484,29 @@ func (f *Func) reachingDef(obj types.Object, id *ast.Ident, defs []Def) (Def, bo
 	f.rdCache[id] = &d
 	return d, true
 }
+
+// copyRoot follows plain copies (x := y) from an identifier to the variable the
+// value was first held in; it stops at the first variable that is defined by
+// anything other than a copy of another variable.
+func (f *Func) copyRoot(e ast.Expr) ast.Expr {
+	info := f.Info()
+	for depth := 0; depth < 16; depth++ {
+		id, ok := ast.Unparen(e).(*ast.Ident)
+		if !ok {
+			return e
+		}
+		obj := objOf(info, id)
+		if obj == nil || !isLocal(obj) {
+			return e
+		}
+		defs := f.Defs(obj)
+		if len(defs) != 1 || defs[0].Kind != DefAssign || defs[0].Idx >= 0 {
+			return e
+		}
+		if _, isId := ast.Unparen(defs[0].Rhs).(*ast.Ident); !isId {
+			return e
+		}
+		e = defs[0].Rhs
+	}
+	return e
+}
